@@ -989,6 +989,32 @@ func LimitsCheck(args []string) {
 				}
 			}})
 	}
+	// a join code admits until the session lifetime is over - not only until the last full second before it
+	cases = append(cases, limitsCase{Name: "session lifetime is not cut short", Flags: append(off(), "--session-timeout", "800ms"),
+		Run: func(s *server, v func(string, map[string]any)) {
+			for rep := 0; rep < 3; rep++ {
+				// create the session at about half past a wall-clock second
+				for {
+					if f := time.Now().Nanosecond() / 1e6; f >= 450 && f <= 550 {
+						break
+					}
+					time.Sleep(5 * time.Millisecond)
+				}
+				t0 := time.Now()
+				codes := mustCreate(s, 1)
+				time.Sleep(time.Until(t0.Add(600 * time.Millisecond)))
+				c, status, err := dialWS(wsURL(s, codes[0], "host", "sender"))
+				took := time.Since(t0)
+				if took > 750*time.Millisecond {
+					continue // the machine was too slow for the margin: says nothing
+				}
+				if err != nil {
+					v("join_code_refused_before_the_session_lifetime_ended", map[string]any{"lifetime_ms": 800, "age_ms_at_most": took.Milliseconds(), "status": status})
+					return
+				}
+				c.conn.Close()
+			}
+		}})
 	// the per-address rate limits must not be escapable by claiming another address in a request header
 	forged := func(i int) http.Header {
 		ip := fmt.Sprintf("203.0.113.%d", 1+i%250)
